@@ -224,7 +224,9 @@ def run(ctx):
                    "Elem tables (self-checked by MC_Elem in this run)"]
     ctx.assumptions = ["lattice inputs; statistics compared at 10^-6 (slack 2-6 units), log-probabilities and posteriors at 10^-4",
                        "classes whose posterior scores differ by less than the stated table error are treated as tied",
-                       "Gaussian predictions are judged only when every smoothed variance is >= 1/16",
+                       "Gaussian predictions: smoothing 0 or >= 1e-3 judged when every smoothed variance is >= 1/16; default smoothing "
+                       "1e-9 judged when every class feature is constant (sigma = eps, handled exactly through the leading term "
+                       "-(q-theta)^2/(2 eps)) or has variance >= 1/16; other cases only the statistics are judged",
                        "k-means: shift = tolerance exactly (or within the fixed-point window) admits either flag (docs say both 'below' and 'lower or equal')",
                        "FTRL: each update is judged against the recurrence applied to the previous observed state, first-order error bound"]
     return vlib.finish(ctx)
